@@ -39,6 +39,10 @@ fn args(_tier: Tier) -> Vec<RE> {
         v.push(RE::Val(RV::None));
         v.push(RE::Map([("a".to_string(), RE::Val(RV::Int(1)))].into_iter().collect()));
         v.push(RE::call("c1", RE::Val(RV::Int(1)))); // nested call as argument
+        // arguments taken from the input: two different maps whose keys are chosen so that a
+        // rendering without quoting would coincide
+        v.push(RE::reff("m1"));
+        v.push(RE::reff("m2"));
     }
     v
 }
@@ -49,6 +53,17 @@ struct World {
     /// global invocation counter = token source
     next: u64,
     log: Vec<(String, RV, bool)>,
+}
+
+fn facts_rv() -> RV {
+    RV::map(&[
+        ("m1", RV::map(&[("a", RV::Int(1)), ("b", RV::Int(2))])),
+        ("m2", RV::map(&[("a: i1, b", RV::Int(2))])),
+    ])
+}
+
+fn facts_value() -> Value {
+    facts_rv().to_value()
 }
 
 fn token_value(t: u64) -> RV {
@@ -76,6 +91,7 @@ fn handler(world: &Arc<Mutex<World>>) -> Handler {
 
 /// reference cache model (one per evaluation)
 struct CacheEnv<'a> {
+    facts: RV,
     cache: BTreeMap<(String, RV), RV>,
     next: &'a mut u64,
     script: &'a [bool],
@@ -86,7 +102,7 @@ struct CacheEnv<'a> {
 
 impl Env for CacheEnv<'_> {
     fn facts(&self) -> &RV {
-        &RV::None
+        &self.facts
     }
     fn symbol(&self, _: &str) -> Option<RV> {
         None
@@ -156,7 +172,8 @@ fn build_case(case: &Case, argv: &[RE], world: &Arc<Mutex<World>>) -> Result<(Ru
         let items: Vec<RE> = case.calls[k..k + len].iter().map(|(f, a)| RE::call(FUNCS[*f].0, argv[*a].clone())).collect();
         k += len;
         let tree = RE::List(items);
-        b = b.with_rule(Rule::new(format!("r{ri}"), BTreeMap::new(), tree.to_expr())).map_err(|e| e.to_string())?;
+        let expr = tree.try_to_expr().map_err(|p| format!("constructor panicked: {p}"))?;
+        b = b.with_rule(Rule::new(format!("r{ri}"), BTreeMap::new(), expr)).map_err(|e| e.to_string())?;
         trees.push(tree);
     }
     // c1 through with_function, c2 and n1 through the boxed entry point with_functions
@@ -200,7 +217,7 @@ fn check_case(case: &Case, argv: &[RE], evaluations: usize, dev: Option<u32>, ac
         // run the evaluations one after another on the same ruleset
         let mut observed: Vec<Result<Vec<Obs>, String>> = Vec::new();
         for _ in 0..evaluations {
-            let r = catch(|| block_on(rs.evaluate_value(&Value::None)));
+            let r = catch(|| block_on(rs.evaluate_value(&facts_value())));
             observed.push(match r {
                 Err(p) => Err(format!("PANIC: {p}")),
                 Ok(Err(m)) => Err(format!("MACHINERY: {m}")),
@@ -223,7 +240,7 @@ fn check_case(case: &Case, argv: &[RE], evaluations: usize, dev: Option<u32>, ac
         let mut ref_log: Vec<(String, RV)> = Vec::new();
         let mut problem: Option<(String, String)> = None;
         'outer: for (ei, ob) in observed.iter().enumerate() {
-            let mut env = CacheEnv { cache: BTreeMap::new(), next: &mut next, script: &script, pos: &mut pos, log: Vec::new(), overrun: &mut overrun };
+            let mut env = CacheEnv { facts: facts_rv(), cache: BTreeMap::new(), next: &mut next, script: &script, pos: &mut pos, log: Vec::new(), overrun: &mut overrun };
             let obs = match ob {
                 Ok(o) => o,
                 Err(m) => {
@@ -304,8 +321,8 @@ pub fn run(tier: Tier) -> i32 {
     let argv = args(Tier::Thorough);
     // legs: (arguments used, call-sequence lengths, consecutive evaluations, bound on failing invocations)
     let legs: Vec<(usize, std::ops::RangeInclusive<usize>, usize, Option<u32>)> = match tier {
-        Tier::Quick => vec![(8, 0..=3, 2, None)],
-        Tier::Thorough => vec![(12, 0..=3, 2, None), (8, 0..=3, 3, None), (6, 4..=4, 2, Some(2))],
+        Tier::Quick => vec![(8, 0..=3, 2, None), (14, 2..=2, 1, None)],
+        Tier::Thorough => vec![(14, 0..=3, 2, None), (8, 0..=3, 3, None), (6, 4..=4, 2, Some(2))],
     };
     rep.bound("functions", "c1, c2 (cacheable), n1 (not cacheable)");
     rep.bound("arguments", argv.iter().map(|a| a.unparse().unwrap_or_default()).collect::<Vec<_>>());
